@@ -247,7 +247,7 @@ def rule_quote_regexes(ctx, rule):
     ex = P.Extractor(repo, atomic=set())
     ref_fn = q.func("safely_quote_iter")
     ctx.fn("ural.quote.safely_quote_iter", "ural.quote.safely_quote")
-    rets = [r for r in ex.function(ref_fn) if r.kind == "yield"]
+    rets = [r for r in P.flat_rets(ex.function(ref_fn)) if r.kind == "yield"]
     ctx.require_instances(rule, len(rets), 2, "yields in safely_quote_iter")
     verbatim = 0
     quoted = 0
@@ -469,3 +469,30 @@ def _check_error_handler(ctx, rule, q, name, decode_call):
     ctx.ob(rule, "lossy-decode/handler/whole-span", has_whole and not partial,
            "error handler %s re-emits %s but resumes at error.end: the other undecodable bytes of the span are dropped" % (handler, ", ".join(P.show(x) for x in partial) or "nothing"),
            q.site(ref.node), witness="/price%E2%82/x", sample="handler returns (%s, %s)" % (P.show(text, maxdepth=6), P.show(pos)))
+
+
+def rule_qsl_mappers(ctx, rule):
+    """safely_quote_qsl / safely_unquote_qsl map every item, keep a None value None and treat '' as a value."""
+    ctx.rule(rule, "query-list mappers agree: safely_quote_qsl and safely_unquote_qsl map every (key, value) item without filtering, and only a value that IS None stays None (a truthiness test would turn 'k=' into the bare key 'k' in one mode only)")
+    repo = ctx.repo
+    q = repo.mod("quote")
+    ex = P.Extractor(repo, atomic={"ural.quote.safely_quote", "ural.quote.unquote"})
+    n = 0
+    for fn in ("safely_quote_qsl", "safely_unquote_qsl"):
+        ref = q.func(fn)
+        ctx.fn(ref.qualname)
+        site = q.site(ref.node)
+        t = ex.result_term(ex.function(ref))
+        if not (t[0] == "comp" and len(t[3]) == 1 and t[2][0] == "tuple" and len(t[2][1]) == 2):
+            ctx.undecided(rule, "%s is not a comprehension of (key, value) pairs: %s" % (fn, P.show(t, maxdepth=4)))
+            continue
+        n += 1
+        names, it, ifs = t[3][0]
+        ctx.ob(rule, fn + "/maps-every-item", not ifs and it == ("param", "qsl"), "%s filters or replaces the items it is given (%s)" % (fn, P.show(t, maxdepth=4)), site)
+        v = t[2][1][1]
+        conds = F.atomic_conditions(v)
+        truthy = [c for c in conds if not (c[0] == "cmp" and c[1] == "IsNot" and c[3] == ("const", None))]
+        ctx.ob(rule, fn + "/none-test-by-identity", not truthy,
+               "%s decides whether an item has a value with `%s` instead of `value is not None`: the empty value of 'k=' becomes None and the item is written as the bare key 'k'" % (fn, "; ".join(P.show(c, maxdepth=3) for c in truthy)),
+               site, witness="http://a.com/?k=")
+    ctx.require_instances(rule, n, 2, "query-list mappers")
